@@ -19,11 +19,12 @@ Conventions
 -/
 namespace Hts.Model.Index
 
+/-- a virtual offset (documentation alias; the fields below are declared as `Int` so that `omega` sees them) -/
 abbrev Offset := Int
 
 structure Chunk where
-  b : Offset
-  e : Offset
+  b : Int
+  e : Int
 deriving DecidableEq, Repr, Inhabited
 
 structure Bin where
@@ -40,7 +41,7 @@ deriving DecidableEq, Repr, Inhabited
 structure RefIndex where
   bins : List Bin := []
   stats : Option Stats := none
-  intervals : List Offset := []
+  intervals : List Int := []
 deriving DecidableEq, Repr, Inhabited
 
 structure Index where
@@ -99,7 +100,7 @@ def lastTile (start stop : Int) : Nat :=
 /-- tile (linear index) bookkeeping of the repaired `Add`: when the last overlapped tile is not yet
 present, the array grows to `eiv+1` entries; the tiles `max biv len … eiv` get the chunk begin, the
 tiles between the old end and `biv` stay zero -/
-def addTiles (ivs : List Offset) (start stop : Int) (cb : Offset) : List Offset :=
+def addTiles (ivs : List Int) (start stop : Int) (cb : Int) : List Int :=
   let biv := tileOf start
   let eiv := lastTile start stop
   if eiv ≥ ivs.length then
@@ -123,17 +124,25 @@ def addRef (ref : RefIndex) (last : Int) (r : Rec) : RefIndex × Int × Bool × 
     ({ bins := nb.1, stats := some (addStats ref.stats r.chunk r.mapped),
        intervals := addTiles ref.intervals r.start r.stop r.chunk.b }, r.start, nb.2, .ok)
 
+/-- the value behind `i.Unmapped` after `if i.Unmapped == nil { i.Unmapped = new(uint64) }` -/
+def umCount : Option Nat → Nat
+  | none => 0
+  | some n => n
+
+/-- a reference index without records (`RefIndex{}`) -/
+def emptyRef : RefIndex := {}
+
 /-- `Index.Add` -/
 def add (i : Index) (r : Rec) : Index × AddRes :=
   if !(validPos r.start && validPos r.stop) then (i, .errRange) else
-  let um := match i.unmapped with | none => 0 | some n => n
+  let um := umCount i.unmapped
   if !r.placed then ({ i with unmapped := some (um + 1) }, .ok) else
   let i := { i with unmapped := some um }
   if r.rid < (i.refs.length : Int) - 1 then (i, .errRefOrder) else
   if r.rid < 0 then (i, .panicIndex) else
   let rid := r.rid.toNat
   let grown := decide (rid ≥ i.refs.length)
-  let refs := if grown then i.refs ++ List.replicate (rid + 1 - i.refs.length) {} else i.refs
+  let refs := if grown then i.refs ++ List.replicate (rid + 1 - i.refs.length) emptyRef else i.refs
   let last := if grown then 0 else i.lastRecord
   match refs[rid]? with
   | none => (i, .panicIndex)   -- unreachable: rid < refs.length
@@ -153,7 +162,7 @@ def addAll (i : Index) : List Rec → Index × List AddRes
 
 def leBin (a b : Bin) : Bool := decide (a.bin ≤ b.bin)
 def leChunk (a b : Chunk) : Bool := decide (a.b ≤ b.b)
-def leOff (a b : Offset) : Bool := decide (a ≤ b)
+def leOff (a b : Int) : Bool := decide (a ≤ b)
 
 def sortChunks (cs : List Chunk) : List Chunk := cs.mergeSort leChunk
 
@@ -182,7 +191,7 @@ def findBin (bins : List Bin) (b : Nat) : Option Bin :=
 
 /-- the inner tile loop of `Chunks` for one chunk (`ce` = its end): `k` is the tile number of the
 head of the list, `nz` the `haveNonZero` flag -/
-def tileLoop (beg stop : Int) (ce : Offset) : List Offset → Nat → Bool → Bool
+def tileLoop (beg stop : Int) (ce : Int) : List Int → Nat → Bool → Bool
   | [], _, _ => false
   | t :: ts, k, nz =>
     if nz && t == 0 then tileLoop beg stop ce ts (k + 1) nz
@@ -192,7 +201,7 @@ def tileLoop (beg stop : Int) (ce : Offset) : List Offset → Nat → Bool → B
       if decide (tend ≥ beg) && decide (tbeg ≤ stop) && decide (ce > t) then true
       else tileLoop beg stop ce ts (k + 1) true
 
-def tileHit (ivs : List Offset) (iv : Nat) (beg stop : Int) (ce : Offset) : Bool :=
+def tileHit (ivs : List Int) (iv : Nat) (beg stop : Int) (ce : Int) : Bool :=
   tileLoop beg stop ce (ivs.drop iv) iv false
 
 /-- candidate chunks of one reference, in the order the code appends them -/
@@ -229,29 +238,25 @@ def mergeChunks (s : List Chunk → List Chunk) (i : Index) : Index :=
 namespace Local
 
 /-- `File` part of an offset as the code sees it after `makeOffset` -/
-def fileOf (o : Offset) : Int := (o % 18446744073709551616) / 65536
+def fileOf (o : Int) : Int := (o % 18446744073709551616) / 65536
 
-/-- `index.Adjacent`: left-to-right, the running merged chunk is `cur` -/
-def adjAux (cur : Chunk) : List Chunk → List Chunk
+/-- the common loop of `adjacent` and `CompressorStrategy`: left to right, `cur` is the merged-so-far
+left neighbour (`chunks[c-1]`), which absorbs `chunks[c]` when `close cur chunks[c]` -/
+def mergeAux (close : Chunk → Chunk → Bool) (cur : Chunk) : List Chunk → List Chunk
   | [] => [cur]
   | r :: rest =>
-    if cur.e ≥ r.b then adjAux ⟨cur.b, if cur.e > r.e then cur.e else r.e⟩ rest
-    else cur :: adjAux r rest
+    if close cur r then mergeAux close ⟨cur.b, if cur.e > r.e then cur.e else r.e⟩ rest
+    else cur :: mergeAux close r rest
 
+/-- `index.Adjacent` -/
 def adjacent : List Chunk → List Chunk
   | [] => []
-  | x :: xs => adjAux x xs
+  | x :: xs => mergeAux (fun l r => decide (l.e ≥ r.b)) x xs
 
 /-- `index.CompressorStrategy(near)` -/
-def compAux (near : Int) (cur : Chunk) : List Chunk → List Chunk
-  | [] => [cur]
-  | r :: rest =>
-    if fileOf cur.e + near ≥ fileOf r.b then compAux near ⟨cur.b, if cur.e > r.e then cur.e else r.e⟩ rest
-    else cur :: compAux near r rest
-
 def compressor (near : Int) : List Chunk → List Chunk
   | [] => []
-  | x :: xs => compAux near x xs
+  | x :: xs => mergeAux (fun l r => decide (fileOf l.e + near ≥ fileOf r.b)) x xs
 
 /-- `index.Squash` -/
 def squash : List Chunk → List Chunk
